@@ -270,6 +270,48 @@ def shrink(ctx, eng, script, budget=150):
     return ";".join(steps)
 
 
+# ---------------------------------------------------------------------------------------------
+# command level: the same command sequences through the data layer on every engine (the property's
+# conclusion "no command's behaviour depends on engine_type"). Uses the data-layer harness datasim
+# (group Data) when it builds; unavailable => noted, never a verdict.
+# ---------------------------------------------------------------------------------------------
+ENGINES3 = ("mem", "pebble", "rocksdb")
+
+
+def cmd_differential(ctx, args, sub="cmd"):
+    """returns (failures, lines compared, note)"""
+    if not os.path.exists(os.path.join(vlib.HARNESS, "cmd", "datasim", "main.go")):
+        return [], 0, "datasim harness not present"
+    ok, out, _ = vlib.go_build("datasim")
+    if not ok:
+        return [], 0, "datasim harness does not build"
+    outs, cases = {}, None
+    for e in ENGINES3:
+        d = os.path.join(ctx.run_dir, "%s-%s" % (sub, e))
+        shutil.rmtree(d, ignore_errors=True)
+        os.makedirs(d)
+        rc, o, _ = sh("%s %s -engine %s -out %s" % (os.path.join(vlib.BIN, "datasim"), args, e, d), cwd=d, timeout=1800)
+        if rc != 0 or not os.path.exists(os.path.join(d, "impl.out")):
+            return [], 0, "datasim run failed on %s (rc=%d)" % (e, rc)
+        outs[e], order = vlib.read_out(os.path.join(d, "impl.out"))
+        if cases is None:
+            cases = [l.rstrip("\n") for l in open(os.path.join(d, "cases.tsv"))]
+            ids = order
+    fails, bad_seq = [], set()
+    for cid in ids:
+        vals = {e: outs[e].get(cid) for e in ENGINES3}
+        if len(set(vals.values())) > 1:
+            seq = cid.split(".")[0]
+            if seq in bad_seq:
+                continue
+            bad_seq.add(seq)
+            fails.append(dict(name="cmd-" + seq, cid=cid,
+                              case=dict(kind="datasim", first_difference=dict(id=cid, replies=vals),
+                                        cases_tsv=[l for l in cases if l.split("\t")[0].split(".")[0] == seq]),
+                              what="the reply of a command sequence depends on engine_type"))
+    return fails, len(ids), None
+
+
 def run(ctx):
     quick = ctx.tier == "quick"
     ok, out, _ = vlib.go_build("engine")
@@ -286,13 +328,17 @@ def run(ctx):
 
     corpus = os.path.join(vlib.VERIF, "corpus", "C20")
     runs = []
+    cmd_args = None
     if ctx.replay:
         rp = json.load(open(ctx.replay))
         p = os.path.join(ctx.run_dir, "replay_cases.tsv")
         with open(p, "w") as f:
             for line in (rp.get("case") or {}).get("cases_tsv", []) or rp.get("cases_tsv", []):
                 f.write(line + "\n")
-        runs.append(("replay", "-replay %s" % p))
+        if (rp.get("case") or {}).get("kind") == "datasim":
+            cmd_args = "-replay %s" % p
+        else:
+            runs.append(("replay", "-replay %s" % p))
     elif quick:
         runs.append(("main", "-seed %d -n 1500 -sweep 4 -nlarge 12 -nmulti 300 -rockpct 35 -engines mem,pebble,rocksdb -corpus %s" % (ctx.seed, corpus)))
         runs.append(("memvariants", "-seed %d -n 400 -sweep 1 -nlarge 6 -nmulti 50 -engines membtree,memskip -corpus %s" % (ctx.seed + 7919, corpus)))
@@ -334,6 +380,17 @@ def run(ctx):
         for cid in ids[:1] + ids[len(ids) // 2: len(ids) // 2 + 1] + ids[-1:]:
             samples.append(dict(id=cid, engine=cases[cid][0], script=cases[cid][1][:600], impl=(impl.get(cid) or "")[:600]))
 
+    # command-level differential on the three selectable engines
+    if cmd_args is None and not ctx.replay:
+        cmd_args = "-seed %d -n %d -len 40" % (ctx.seed, 150 if quick else 3000)
+    cmd_total, cmd_note = 0, None
+    if cmd_args:
+        cfails, cmd_total, cmd_note = cmd_differential(ctx, cmd_args)
+        all_fail += cfails
+        if cmd_note:
+            ctx.notes.append("command-level cross-engine differential skipped: " + cmd_note)
+        hist_all["cmd_differential_lines"] = cmd_total
+
     def search():
         d2, err = run_harness(ctx, "search", "-seed %d -n 15000 -sweep 12 -nlarge 100 -nmulti 3000 -rockpct 50 -engines mem,pebble,rocksdb,membtree,memskip"
                               % (ctx.seed + 1000003), model=False)
@@ -353,7 +410,7 @@ def run(ctx):
                                     "on mem/pebble/rocksdb (+ btree, skiplist indexes)")
     ctx.finish(dict(
         traces_validated_against_impl=total,
-        evaluations=total,
+        evaluations=total + cmd_total,
         distinct_nontrivial=len(distinct),
         rule="one seeded PRNG generates scripts (1-4 batches of Put/Delete/DeleteRange/Merge over a pool of 1-9 adversarial keys: empty key, "
              "0x00/0xff runs, shared prefixes, key/key+0x00/neighbour bounds; Commit via eng.Write or batch.Commit, Clear, new batch; reads "
@@ -365,6 +422,7 @@ def run(ctx):
              ">= 3 bytes and share one 3-byte prefix). Non-trivial = a commit succeeded and a read returned data; distinct by hash of (engine, script).",
         histogram=hist_all,
         mismatches=len(all_mism),
+        command_level_lines_compared_across_engines=cmd_total,
         samples=samples[:6],
     ), assumptions=[
         "rocksdb is exercised only with keys and bounds >= 3 bytes that share one 3-byte prefix (Debian's librocksdb asserts on the 3-byte "
